@@ -81,10 +81,16 @@ def oracle(case):
     if np.any(p_arr < 0):
         return ({"cls": cname, "clause": "support", "method": "pdf"}, "negative pdf")
     for xv, pv in zip(x[inside][:6], p_arr[inside][:6]):
+        # mean value theorem: the difference quotient of the cdf over [x-h, x+h] is a value of its derivative on that
+        # interval, so it must lie between the extreme pdf values there (the pdf is monotone on such a tiny interval)
         h = 1e-5 * max(abs(xv), 1e-2)
+        if cname not in ("NormalDistribution", "VonMisesDistribution") and xv - h <= {"WeibullDistribution": th.get("gamma", 0.0)}.get(cname, 0.0):
+            continue
         num = (float(d.cdf(xv + h)) - float(d.cdf(xv - h))) / (2 * h)
-        if not math.isclose(num, float(pv), rel_tol=2e-4, abs_tol=1e-7):
-            return ({"cls": cname, "clause": "derivative"}, "pdf(%r) = %r but d cdf/dx = %r (theta=%r)" % (float(xv), float(pv), num, th))
+        grid = np.asarray(d.pdf(np.linspace(xv - h, xv + h, 9)), dtype=float)
+        lo_p, hi_p = float(grid.min()), float(grid.max())
+        if not (lo_p * (1 - 1e-4) - 1e-9 <= num <= hi_p * (1 + 1e-4) + 1e-9):
+            return ({"cls": cname, "clause": "derivative"}, "pdf on [%r +- %r] lies in [%r, %r] but the cdf difference quotient there is %r (theta=%r)" % (float(xv), h, lo_p, hi_p, num, th))
     lo = {"WeibullDistribution": th.get("gamma", 0.0)}.get(cname, 0.0)
     if cname not in ("NormalDistribution", "VonMisesDistribution"):
         out = np.array([lo - 1.0, lo - 1e-3, lo - 1e-9])
@@ -164,17 +170,33 @@ def run(ctx):
                 found += 1
                 if found >= 8:
                     break
-    # ScipyDistribution subclass: override by keyword
+    # ScipyDistribution subclasses: every single-parameter override, by keyword and by position, zero values included
     try:
-        My = make_scipy_subclass()
-        a = My(c=2.0, loc=0.0, scale=3.0)
-        b = My()
-        x = np.array([0.5, 1.0, 4.0])
-        for m in ("cdf", "pdf"):
-            if not np.array_equal(getattr(a, m)(x), getattr(b, m)(x, c=2.0, loc=0.0, scale=3.0)):
-                ctx.violation({"cls": "ScipyDistribution", "clause": "override", "method": m}, "ScipyDistribution subclass: explicit parameters differ from constructed instance",
-                              {"cls": "ScipyDistribution"})
-        ctx.cov["evaluations"] += 2
+        import scipy.stats as sts_
+        dm = D.dist_module()
+        subs = []
+        for nm, base, alt in (("gamma", {"a": 2.5, "loc": 1.5, "scale": 2.0}, {"a": 1.7, "loc": 0.0, "scale": 0.7}),
+                              ("gumbel_r", {"loc": 1.0, "scale": 2.0}, {"loc": 0.0, "scale": 0.5}),
+                              ("weibull_min", {"c": 1.5, "loc": 0.3, "scale": 2.0}, {"c": 2.2, "loc": 0, "scale": 3.0})):
+            Cls = type("My_" + nm, (dm.ScipyDistribution,), {"scipy_dist_name": nm})
+            names = list(base)
+            inst = Cls(**base)
+            xs = np.array([2.0, 3.5, 6.0])
+            for i, pn in enumerate(names):
+                want = getattr(sts_, nm)
+                theta = dict(base, **{pn: alt[pn]})
+                for m, sm in (("cdf", "cdf"), ("pdf", "pdf"), ("icdf", "ppf")):
+                    arg = xs if m != "icdf" else np.array([0.2, 0.5, 0.9])
+                    ref = getattr(want, sm)(arg, *[theta[k] for k in names])
+                    by_kw = getattr(inst, m)(arg, **{pn: alt[pn]})
+                    by_pos = getattr(inst, m)(arg, *([None] * i + [alt[pn]]))
+                    by_inst = getattr(Cls(**theta), m)(arg)
+                    ctx.count(("scipydist", nm, pn, m), True)
+                    for how, val in (("keyword", by_kw), ("positional", by_pos), ("constructed", by_inst)):
+                        if not np.allclose(val, ref, rtol=1e-12, atol=0, equal_nan=True):
+                            ctx.violation({"cls": "ScipyDistribution", "clause": "override", "method": m, "how": how},
+                                          "ScipyDistribution(%s) %s with %s=%r given by %s: %r, expected %r" % (nm, m, pn, alt[pn], how, np.asarray(val).tolist(), np.asarray(ref).tolist()),
+                                          {"cls": "ScipyDistribution", "family": nm, "param": pn, "how": how})
     except Exception as e:  # noqa
         ctx.violation({"cls": "ScipyDistribution", "clause": "exception"}, "ScipyDistribution subclass raised %r" % e, {"cls": "ScipyDistribution"})
     ctx.notes["input_distribution"] = dist
